@@ -1,6 +1,6 @@
 (* C11 — Silences and notification log survive crashes: snapshots are atomic and lossless.
    Only statements here; proofs are in Proofs/FsCrashProofs.v and Proofs/WireProofs.v. *)
-From AM Require Import Base.Prelude Model.FsCrash Model.Snapshot Proofs.FsCrashProofs.
+From AM Require Import Base.Prelude Model.Nflog Model.FsCrash Model.Wire Model.Snapshot Proofs.WireProofs Proofs.FsCrashProofs.
 
 (* ---- atomicity (stated once over bytes; both stores run the same protocol, see Model/Snapshot.v) ---- *)
 
@@ -44,6 +44,82 @@ Theorem c11_history_never_torn target evs d0 c :
   content d target = content d0 target \/ exists e, In e evs /\ content d target = Some (ev_bytes e).
 Proof. exact (history_never_torn target evs d0 c). Qed.
 
+(* ---- the codec: lossless, total, and safe on truncated files (Model/Wire.v mirrors protobuf-go + protodelim) ---- *)
+
+(* decode (encode st) = st for EVERY list of well-formed records (wf_mesh / wf_meshsil: Go's integer ranges, valid
+   UTF-8 in string fields, unique map keys, each record at most 4 MiB encoded - see the refuted case below). All
+   field shapes: receiver data of the three kinds and unset, packed hashes, absent/zero timestamps, legacy and new
+   matcher fields, several matcher sets, comments, annotations. *)
+Theorem c11_nflog_decode_encode st : wf_nflog st -> decode_nflog (encode_nflog st) = Ok st.
+Proof. exact (nflog_decode_encode st). Qed.
+Theorem c11_silences_decode_encode st : wf_silences st -> decode_silences (encode_silences st) = Ok st.
+Proof. exact (silences_decode_encode st). Qed.
+
+(* the decoders are total on ALL byte strings: Ok or Err, never out of fuel / Panic ... *)
+Theorem c11_nflog_decode_total b : decode_nflog b <> Panic.
+Proof. exact (nflog_decode_total b). Qed.
+Theorem c11_silences_decode_total b : decode_silences b <> Panic.
+Proof. exact (silences_decode_total b). Qed.
+(* ... and neither do the inner loops (fields of a message, packed varints, skipped groups): fuel = input length *)
+Theorem c11_inner_loops_fuel_sufficient b num :
+  many parse_field (length b) b <> PFuel /\ many varint_dec (length b) b <> PFuel /\
+  skip_groups (S (length b)) [num] b <> PFuel.
+Proof. exact (conj (parse_msg_fuel_ok b) (conj (packed_fuel_ok b) (skip_group_fuel_ok num b))). Qed.
+
+(* every strict prefix of a written file is rejected, or is exactly the file of the first j records and decodes to
+   exactly those - never a record with altered content. (So truncation alone cannot be made safe by the decoder:
+   atomicity has to come from the rename, and c11_snapshot_atomic shows it does.) *)
+Theorem c11_nflog_prefix_behaviour st p :
+  wf_nflog st -> p `prefix_of` encode_nflog st -> p <> encode_nflog st ->
+  (exists c, decode_nflog p = Err c) \/
+  (exists j, (j < length st)%nat /\ p = encode_nflog (take j st) /\ decode_nflog p = Ok (take j st)).
+Proof. exact (nflog_prefix_behaviour st p). Qed.
+Theorem c11_silences_prefix_behaviour st p :
+  wf_silences st -> p `prefix_of` encode_silences st -> p <> encode_silences st ->
+  (exists c, decode_silences p = Err c) \/
+  (exists j, (j < length st)%nat /\ p = encode_silences (take j st) /\ decode_silences p = Ok (take j st)).
+Proof. exact (silences_prefix_behaviour st p). Qed.
+
+(* ---- lossless: what Snapshot writes, the loader of the next start reads back identically ---- *)
+(* nflog: decodeState keeps every record under its (group key, receiver) key *)
+Theorem c11_nflog_lossless st :
+  wf_nflog st -> nflog_keys_ok st = true -> nflog_load (snapshot_nflog st) = Ok (keyed_nflog st).
+Proof. exact (nflog_load_snapshot st). Qed.
+(* silences: Snapshot copies the first matcher set into the legacy field; decodeState + loadSnapshot undo it *)
+Theorem c11_silences_lossless st :
+  wf_silences (map prepare_meshsil st) -> silences_keys_ok st = true ->
+  silence_load (snapshot_silences st) = Ok (keyed_silences st).
+Proof. exact (silence_load_snapshot st). Qed.
+
+(* ---- crash at ANY point + restart: each store comes up with exactly the old or exactly the new content ---- *)
+Theorem c11_nflog_crash_restart target tmp d0 old new k c :
+  tmp <> target -> stable d0 target -> snapshot_bytes d0 target = snapshot_nflog old ->
+  wf_nflog old -> nflog_keys_ok old = true -> wf_nflog new -> nflog_keys_ok new = true ->
+  let d := recover_after (snapshot_ops tmp target (snapshot_nflog new)) k c d0 in
+  nflog_load (snapshot_bytes d target) = Ok (keyed_nflog old) \/
+  nflog_load (snapshot_bytes d target) = Ok (keyed_nflog new).
+Proof. exact (nflog_crash_restart target tmp d0 old new k c). Qed.
+Theorem c11_silences_crash_restart target tmp d0 old new k c :
+  tmp <> target -> stable d0 target -> snapshot_bytes d0 target = snapshot_silences old ->
+  wf_silences (map prepare_meshsil old) -> silences_keys_ok old = true ->
+  wf_silences (map prepare_meshsil new) -> silences_keys_ok new = true ->
+  let d := recover_after (snapshot_ops tmp target (snapshot_silences new)) k c d0 in
+  silence_load (snapshot_bytes d target) = Ok (keyed_silences old) \/
+  silence_load (snapshot_bytes d target) = Ok (keyed_silences new).
+Proof. exact (silences_crash_restart target tmp d0 old new k c). Qed.
+
+(* ---- REFUTED without the size bound: a record over protodelim's default MaxSize (4 MiB) is written by Snapshot
+   but refused by the loader, i.e. the process "refuses to start because of a file it wrote itself". Witness: a log
+   entry with a 4 MiB + 1 byte group key; on the implementation: a silence with a 5 MiB comment accepted by Set
+   (no size limit by default), or 600k firing alerts in one group (known finding
+   own-snapshot-refused-record-over-4MiB, reproduced by the harness on every run). *)
+Theorem c11_lossless_refuted_oversize : exists m : wmesh, decode_nflog (encode_nflog [m]) = Err "framing".
+Proof. exact oversize_snapshot_refused. Qed.
+Theorem c11_oversize_record_refused {A} (dec : list N -> option A) body rest :
+  (max_size < N.of_nat (length body))%N -> (N.of_nat (length body) < two64N)%N ->
+  decode_file dec (frame body ++ rest) = Err "framing".
+Proof. exact (oversize_frame_refused dec body rest). Qed.
+
 (* ---- non-vacuity / sanity: the model does produce torn files when the protocol is broken ---- *)
 Definition ex_old := [1; 2; 3]%N.
 Definition ex_new := [9; 8; 7; 6]%N.
@@ -70,5 +146,37 @@ Example c11_model_detects_in_place_write :
              (mkChoice 1 (fun _ => 1%nat)) (fs_with "nflog" ex_old)) "nflog" = Some [9]%N.
 Proof. vm_compute. reflexivity. Qed.
 
+(* the hypotheses of the codec theorems are met by a non-trivial store content *)
+Definition ex_entry : wmesh :=
+  mkMesh (Some (mkWEntry "{}:{a=""b""}" (Some (mkRecv "team" "webhook" 3)) "" true (Some (mkTs 1700000000 5))
+                         [1; 18446744073709551615]%N [300]%N [("n", Some (RInt (-1))); ("t", Some (RStr "1.5")); ("u", None)]))
+         (Some (mkTs 4102444800 0)).
+Example c11_wf_nflog_nonvacuous :
+  wf_mesh ex_entry = true /\ nflog_keys_ok [ex_entry] = true /\
+  nflog_load (snapshot_nflog [ex_entry]) = Ok (keyed_nflog [ex_entry]).
+Proof. vm_compute. repeat split; reflexivity. Qed.
+Definition ex_sil : wmeshsil :=
+  mkMS (Some (mkWS "id-1" [] (Some (mkTs 1 0)) (Some (mkTs 2 0)) (Some (mkTs 1 5)) [] "me" "why" [("k", "v")]
+                   [[mkWM 0 "a" "b"; mkWM 3 "c" "d.*"]; [mkWM 1 "e" "f"]] [])) (Some (mkTs 9 0)).
+Example c11_wf_silences_nonvacuous :
+  wf_meshsil (prepare_meshsil ex_sil) = true /\ silences_keys_ok [ex_sil] = true /\
+  silence_load (snapshot_silences [ex_sil]) = Ok (keyed_silences [ex_sil]).
+Proof. vm_compute. repeat split; reflexivity. Qed.
+(* a file in the old format (single matcher list, comments list) is upgraded on load *)
+Example c11_legacy_format_upgraded :
+  let old := mkMS (Some (mkWS "id-0" [mkWM 0 "a" "b"] None None None [mkWC "me" "why" None] "" "" [] [] [])) None in
+  silence_load (encode_silences [old]) =
+  Ok [("id-0", mkMS (Some (mkWS "id-0" [] None None None [] "me" "why" [] [[mkWM 0 "a" "b"]] [])) None)].
+Proof. vm_compute. reflexivity. Qed.
+(* truncation: cutting ex_entry's file one byte short is an error; cutting a two-record file at the boundary gives
+   the first record *)
+Example c11_truncation_examples :
+  (exists c, decode_nflog (removelast (encode_nflog [ex_entry])) = Err c) /\
+  decode_nflog (take (length (encode_nflog [ex_entry])) (encode_nflog [ex_entry; ex_entry])) = Ok [ex_entry].
+Proof. split; [eexists|]; vm_compute; reflexivity. Qed.
+
 Print Assumptions c11_snapshot_atomic.
 Print Assumptions c11_history_never_torn.
+Print Assumptions c11_nflog_crash_restart.
+Print Assumptions c11_silences_crash_restart.
+Print Assumptions c11_silences_prefix_behaviour.
